@@ -73,6 +73,9 @@ TARGETS = [
     ("pams/session.py", "Session", "setup"),
     ("pams/runners/sequential.py", "SequentialRunner", "_handle_orders"),
     ("pams/runners/sequential.py", "SequentialRunner", "_collect_orders_from_normal_agents"),
+    ("pams/runners/sequential.py", "SequentialRunner", "_update_markets"),
+    ("pams/runners/sequential.py", "SequentialRunner", "_iterate_market_updates"),
+    ("pams/runners/sequential.py", "SequentialRunner", "_run"),
     ("pams/market.py", "Market", "_add_order"),
     ("pams/market.py", "Market", "_cancel_order"),
     ("pams/market.py", "Market", "_execution"),
